@@ -53,6 +53,18 @@ class Context:
     def origins(self, fn: FuncInfo, values_only: bool = False) -> Origins:
         return Origins(self.flow(fn), values_only=values_only)
 
+    def resolve(self, fn, expr, at, depth: int = 4):
+        """Follow a local with exactly one reaching plain definition to the defining expression (rules that match the shape
+        of an expression must not depend on whether it was given a name first)."""
+        import ast as _ast
+        while depth and isinstance(expr, _ast.Name):
+            ds = list(self.flow(fn).defs(expr.id, at))
+            if len(ds) != 1 or ds[0].kind != "assign" or ds[0].value is None or ds[0].index not in (None, ()):
+                break
+            at, expr = ds[0].node, ds[0].value
+            depth -= 1
+        return expr
+
     def memo(self, key, compute):
         if key not in self._memo:
             self._memo[key] = compute()
